@@ -84,7 +84,7 @@ def run_unit(unit, repo=vgen.REPO, rlimit=None, use_cache=True, keep=None):
         if rlimit:
             cmd += ['--rlimit', str(rlimit)]
         try:
-            p = subprocess.run(cmd, capture_output=True, text=True, timeout=1500, cwd=work)
+            p = subprocess.run(cmd, capture_output=True, text=True, timeout=int(os.environ.get('VERIF_VERUS_TIMEOUT', '900')), cwd=work)
             raw = dict(stdout=p.stdout, stderr=p.stderr, rc=p.returncode, cmd=' '.join(cmd))
         except subprocess.TimeoutExpired:
             raw = dict(stdout='', stderr='', rc=-9, cmd=' '.join(cmd), timeout=True)
